@@ -207,6 +207,13 @@ func c03Run(maxSteps int, timely bool) {
 	if !timersLeft {
 		zzvrt.Assert(bothComplete || bothEnded, "C03.sides-disagree-at-quiescence")
 	}
+	// a side that has ended closed its own transport handle and reported its end exactly once
+	for _, p := range []*pEnd{sv, cl} {
+		if p.closed {
+			zzvrt.Assert(p.log.count(evCloseData) >= 1, "C03.ended-side-never-closed-its-transport")
+			zzvrt.Assert(p.log.count(evClosed) == 1, "C03.ended-side-did-not-report-its-end-once")
+		}
+	}
 	trusted := trust != 2 || (user == 0 && userDone)
 	if timely && (trust != 2 || (user == 0 && sv.info.allowWait)) {
 		// messages arrive in time and trust is (or gets) granted: nobody may need a timeout, both sides complete
